@@ -83,6 +83,23 @@ class H(Hooks):
                     return ("err", ("sym", "LimitReached"))
                 self.consumed.append(("spec",))
                 return ("ok", ("list", [("enum", "Operand::LiteralSpecConstantOpInteger", [("sym", "w%d" % self.n)])]))
+            # any other method of the parser (a private helper extracted from the function under evaluation) is evaluated in place
+            ctx = getattr(self, "ctx", None)
+            if ctx is not None and getattr(self, "_depth", 0) < 4:
+                c = [f_ for f_ in ctx.rspirv.fns(PAR, "Parser") if f_["name"] == m]
+                if len(c) == 1:
+                    ps = [q[0] for q in c[0]["sig"]["params"] if q[0] != "self"]
+                    if len(ps) == len(args):
+                        from ..symeval import Return
+                        self._depth = getattr(self, "_depth", 0) + 1
+                        ev.note_ret(c[0])
+                        try:
+                            try:
+                                return ev.block(c[0]["body"], dict(zip(ps, args), self=("self",)))
+                            except Return as r_:
+                                return r_.v
+                        finally:
+                            self._depth -= 1
         return NotImplemented
 
     def match_path(self, v, path):
@@ -117,6 +134,7 @@ def reference(quants, words):
 def evaluate(ctx, kinds, quants, words, opcode="Nop"):
     f = ctx.rspirv.fn(PAR, "parse_operands", "Parser")
     h = H(kinds, quants, words, opcode)
+    h.ctx = ctx
     ev = SymEval(h, "parse_operands")
     try:
         r = ev.run(f, {f["sig"]["params"][1][0]: ("grammar",)})
@@ -199,6 +217,7 @@ class SH(H):
 def spec_eval(ctx, fits, known, kinds):
     f = ctx.rspirv.fn(PAR, "parse_spec_constant_op", "Parser")
     h = SH(fits, known, kinds)
+    h.ctx = ctx
     ev = SymEval(h, "parse_spec_constant_op")
     try:
         r = ev.run(f, {})
